@@ -111,3 +111,28 @@ func VerifFrameChannelLookup() {
 	symapi.Assert(k == 4 && string(rest) == "RTSP", "positioned-at-next-message")
 	symapi.Reach("end")
 }
+
+// VerifFrameSizes (C13 / C14): an interleaved frame of every size class - around typical MTUs,
+// internal buffer sizes and the 16-bit limit - is written as its 4-byte prefix followed by
+// exactly its payload, to a writer that receives it in one or several writes.
+func VerifFrameSizes() {
+	n := []int{12, 255, 256, 1399, 1400, 1460, 1472, 1496, 1497, 1498, 1499, 1500, 1501, 1504, 2048, 4096, 8192, 65535}[symapi.Choose("size", 18)]
+	data := make([]byte, n)
+	for i := range data {
+		data[i] = byte(i%251) + 1
+	}
+	data[0] = 0x80
+	data[n-1] = symapi.Byte("last")
+	ch := symapi.Byte("wireChannel")
+	p := &Packet{Channel: ChannelVideo, Data: data}
+	var buf bytes.Buffer
+	symapi.Assert(p.Write(&buf, []int{int(ch), int(ch) + 1, -1, -1}) == nil, "write-ok")
+	out := buf.Bytes()
+	symapi.Assert(len(out) == 4+n, "frame-is-prefix-plus-whole-payload")
+	symapi.Assert(out[0] == '$' && out[1] == ch && int(out[2])<<8|int(out[3]) == n, "frame-prefix")
+	symapi.Assert(out[4] == 0x80 && out[4+n-1] == data[n-1], "payload-first-and-last-byte")
+	for i := 1; i < n-1; i += 97 {
+		symapi.Assert(out[4+i] == data[i], "payload-bytes")
+	}
+	symapi.Reach("end")
+}
